@@ -1,6 +1,7 @@
 package db
 
 import (
+	"context"
 	"crypto/sha256"
 	"database/sql"
 	"encoding/base64"
@@ -1498,14 +1499,37 @@ func createDefaultMailboxes(db *sql.DB, userID int64) error {
 		return nil
 	}
 
-	tx, err := db.Begin()
+	// The table looked empty. Another process (the delivery service next to
+	// the IMAP service) may be opening the same store for the first time right
+	// now: take the write lock first (BEGIN IMMEDIATE) and count again under
+	// it, so that only one of the two inserts the defaults and the other one
+	// finds them. BEGIN IMMEDIATE needs one dedicated connection.
+	ctx := context.Background()
+	conn, err := db.Conn(ctx)
 	if err != nil {
 		return err
 	}
-	defer func() { _ = tx.Rollback() }()
+	defer func() { _ = conn.Close() }()
+
+	if _, err := conn.ExecContext(ctx, "BEGIN IMMEDIATE"); err != nil {
+		return fmt.Errorf("failed to lock store for initialization: %v", err)
+	}
+	committed := false
+	defer func() {
+		if !committed {
+			_, _ = conn.ExecContext(ctx, "ROLLBACK")
+		}
+	}()
+
+	if err := conn.QueryRowContext(ctx, "SELECT COUNT(*) FROM mailboxes").Scan(&count); err != nil {
+		return fmt.Errorf("failed to count mailboxes: %v", err)
+	}
+	if count > 0 {
+		return nil
+	}
 
 	for _, mbx := range defaultMailboxes {
-		_, err := tx.Exec(`
+		_, err := conn.ExecContext(ctx, `
 			INSERT INTO mailboxes (user_id, name, uid_validity, uid_next, special_use)
 			VALUES (?, ?, ?, ?, ?)
 		`, userID, mbx.name, time.Now().Unix(), 1, mbx.specialUse)
@@ -1514,7 +1538,11 @@ func createDefaultMailboxes(db *sql.DB, userID int64) error {
 		}
 	}
 
-	return tx.Commit()
+	if _, err := conn.ExecContext(ctx, "COMMIT"); err != nil {
+		return err
+	}
+	committed = true
+	return nil
 }
 
 // createSharedIndexes creates indexes for shared database tables
